@@ -931,7 +931,7 @@ func c09GenReq(r *proto.Rng, tok string) c09Req {
 		if tok != "" {
 			return r.Pick("palice-", "pbob-") + tok
 		}
-		return r.Pick("palice", "pbob")
+		return r.Pick("palice", "pbob", "palice", "pbob", "p") // "p": the principal is the empty string — a principal like any other
 	}
 	for _, s := range c09Schemes {
 		switch r.Intn(10) {
@@ -1022,7 +1022,7 @@ func c09GenHistory(r *proto.Rng) []string {
 		switch r.Intn(8) {
 		case 0, 1:
 		case 2, 3, 4:
-			q.creds = append(q.creds, s+"="+r.Pick("palice", "pbob"))
+			q.creds = append(q.creds, s+"="+r.Pick("palice", "pbob", "palice", "p"))
 		case 5, 6:
 			q.creds = append(q.creds, s+"="+r.Pick("e401", "e403", "eplain"))
 		default:
